@@ -33,12 +33,14 @@ PlacesOf(id) == {p \in PlacesLogged : id \in SeqSet(IdsAt(p))}
 
 \* every value that is still unexpired keeps a copy at every place of its range
 KeepsLive(S, t) == \A x \in S : x.e >= t => \A p \in PlaceTab[<<x.a, x.b>>] : x.id \in SeqSet(IdsAt(p))
-\* exactly the copies of the unexpired values are stored (after a complete whole-domain scan)
-ExactCopies(S, t) ==
+\* C16: only copies of unexpired values are stored (after a complete whole-domain scan), each at a
+\* place where that value belongs, at most once.  (That no copy of an unexpired value is MISSING is
+\* KeepsLive, a C03 matter.)
+OnlyLiveCopies(S, t) ==
   /\ \A c \in AllCopies : c[3] >= t
-  /\ \A p \in 0..62 : LET ids == IdsAt(p) IN
+  /\ \A p \in PlacesLogged : LET ids == IdsAt(p) IN
         /\ R!NoDup(ids)
-        /\ SeqSet(ids) = {x.id : x \in {x \in S : x.e >= t /\ p \in PlaceTab[<<x.a, x.b>>]}}
+        /\ SeqSet(ids) \subseteq {x.id : x \in {x \in S : x.e >= t /\ p \in PlaceTab[<<x.a, x.b>>]}}
 
 StepNew ==
   /\ vals' = {} /\ now' = 0
@@ -75,7 +77,7 @@ OpOk ==
               /\ (Ev.take >= 0 => V("COMPLETE", Len(Ev.res) = IF Cardinality(R!Expect(c, d, Ev.t)) < Ev.take THEN Cardinality(R!Expect(c, d, Ev.t)) ELSE Ev.take,
                    <<"take", Ev.take, "yielded", Ev.res, "available", R!Expect(c, d, Ev.t)>>))
               /\ (Has("ch") => V("KEEP", KeepsLive(vals, Ev.t), "an unexpired value lost a stored copy"))
-              /\ (Has("ch") /\ Ev.whole = 1 => V("COPIES", ExactCopies(vals, Ev.t),
+              /\ (Has("ch") /\ Ev.whole = 1 => V("COPIES", OnlyLiveCopies(vals, Ev.t),
                    <<"after a complete whole-domain query at", Ev.t, "stored copies", AllCopies>>))
          ELSE Same /\ Breach(<<"query outside the contract", Ev.a, Ev.b, Ev.t, now, len>>)
     [] Ev.op = "clear" ->
